@@ -269,27 +269,30 @@ R_C04_KeepsWorking(c, pol, req, a, o) ==
    (req.kind = "page" /\ NonSkip(req) /\ Sound(c, pol) /\ (Due(c) = "none" \/ (Primary(c, a) = "ok" /\ GroupStep(pol, a) = "ok")))
       => (o.reached /\ o.after.kind = "sess")
 
-\* C05
+\* C05.  The rules below describe an implementation that makes one check per request (the due one).  A request in
+\* which the other check was made as well is not judged by them (its outcome depends on two answers in an order the
+\* statement does not fix); the ghosts still follow it, so the bound is enforced at the surrounding steps.
+SingleCheck(c, o) == Due(c) = "none" \/ (IF Due(c) = "refresh" THEN "validate" ELSE "refresh") \notin o.calls
 GraceElapsed(gh, c) == IF gh.firstFail # NoGrace THEN gh.firstFail ELSE 0
 R_C05_GraceBound(gh, c, pol, req, a, o) ==
-   (NonSkip(req) /\ req.kind = "page" /\ Sound(c, pol) /\ EffUnavail(c, pol, a)) =>
+   (NonSkip(req) /\ req.kind = "page" /\ Sound(c, pol) /\ EffUnavail(c, pol, a) /\ SingleCheck(c, o)) =>
       /\ o.reached <=> GraceElapsed(gh, c) <= GraceTTL
       /\ ~o.reached => o.after.kind = "none"
 R_C05_NoGraceOther(c, pol, req, a, o) ==
    (NonSkip(req) /\ Sound(c, pol) /\ OtherFailure(c, pol, a)) => (~o.reached /\ o.after.kind = "none")
 R_C05_GraceStartMatches(gh, c, pol, req, a, o) ==
-   (NonSkip(req) /\ Sound(c, pol) /\ EffUnavail(c, pol, a) /\ o.after.kind = "sess") => o.after.grace = GraceElapsed(gh, c)
+   (NonSkip(req) /\ Sound(c, pol) /\ EffUnavail(c, pol, a) /\ o.after.kind = "sess" /\ SingleCheck(c, o)) => o.after.grace = GraceElapsed(gh, c)
 R_C05_SuccessEndsEpisode(c, pol, req, a, o) ==
-   (NonSkip(req) /\ Confirmed(c, pol, a, o) /\ o.after.kind = "sess") => o.after.grace = NoGrace
+   (NonSkip(req) /\ Confirmed(c, pol, a, o) /\ o.after.kind = "sess" /\ SingleCheck(c, o)) => o.after.grace = NoGrace
 \* a tolerated 429 / 503 defers the due check by one validity period at most: the bound "only until the grace TTL
 \* has elapsed" is enforced AT the next check, so whatever the authenticator adds to its answer (a Retry-After,
 \* a body) must not push that check further away
 R_C05_GraceDefersOnePeriod(c, pol, req, a, o) ==
-   (NonSkip(req) /\ Sound(c, pol) /\ EffUnavail(c, pol, a) /\ o.after.kind = "sess") =>
+   (NonSkip(req) /\ Sound(c, pol) /\ EffUnavail(c, pol, a) /\ o.after.kind = "sess" /\ SingleCheck(c, o)) =>
       /\ Due(c) = "validate" => o.after.val <= ValidTTL
       /\ Due(c) = "refresh" => o.after.ref <= ValidTTL
 R_C05_NoStampWithoutOutage(c, pol, req, a, o) ==
-   (c.kind = "sess" /\ o.after.kind = "sess" /\ ~EffUnavail(c, pol, a)) => o.after.grace \in {NoGrace, c.grace}
+   (c.kind = "sess" /\ o.after.kind = "sess" /\ ~EffUnavail(c, pol, a) /\ SingleCheck(c, o)) => o.after.grace \in {NoGrace, c.grace}
 
 Rules(gh, c, pol, req, a, o) ==
    [ C01_Mediation            |-> R_C01_Mediation(c, pol, req, a, o),
@@ -335,11 +338,21 @@ AdvanceCookie(c, d) ==
                   !.grace = IF @ = NoGrace THEN NoGrace ELSE Cap(@ + d, GraceTTL + 1)]
 
 \* ghosts after a request, from what the authenticator answered and what was asked
+\* The code makes ONE check per request (the due one, Primary).  An implementation that also makes the other one in the
+\* same request and gets a positive answer (with the group step, where the policy has one) has been told by the
+\* authenticator that the session is good: that ends the outage episode just as a confirmed primary check does
+\* (found by a property-preserving change that performs every due check before letting the request through).
+SecondaryConfirmed(c, pol, a, o) ==
+   LET s == IF Due(c) = "refresh" THEN "validate" ELSE "refresh" IN
+   /\ Due(c) # "none" /\ s \in o.calls
+   /\ (IF s = "validate" THEN a.validate ELSE a.refresh) = "ok"
+   /\ pol.group => ("profile" \in o.calls /\ a.profile = "member")
+
 StepGhosts(gh, c, pol, req, a, o) ==
    IF ~NonSkip(req) \/ o.after.kind # "sess" THEN (IF o.after.kind = "sess" \/ ~NonSkip(req) THEN gh ELSE NoGhosts)
    ELSE [sinceLogin |-> gh.sinceLogin,
          sinceOK    |-> IF Confirmed(c, pol, a, o) THEN 0 ELSE gh.sinceOK,
-         firstFail  |-> IF Confirmed(c, pol, a, o) THEN NoGrace
+         firstFail  |-> IF Confirmed(c, pol, a, o) \/ SecondaryConfirmed(c, pol, a, o) THEN NoGrace
                         ELSE IF EffUnavail(c, pol, a) /\ PrimaryCalled(c, o) /\ gh.firstFail = NoGrace THEN 0
                         ELSE gh.firstFail]
 
